@@ -21,6 +21,6 @@ theorem f_O_unlock (s s' : St) (rest : List Sto) : Inv s → s.bufO = .unlock ::
   exfalso
   cases hpc : s.opc
   all_goals (cases h; simp only [hpc, ownerLocked, carry, resetting, ownerFlight] at *)
-  all_goals grind [CarryShape, Pu2Shape, PofShape, Po6Shape, Po8Shape, Po9Shape, InsShape]
+  all_goals grind [CarryShape, Pu2Shape, PofShape, Po6Shape, Po8Shape, Po9Shape, InsShape, Rc1Shape, Rc2Shape, RcPre, RcShape]
 
 end MythVerif.WsqTso
